@@ -199,8 +199,6 @@ func (ft *fileTx) rewriteSelect(s *ast.SelectStmt) ast.Stmt {
 	return &ast.BlockStmt{List: append(pre, sw)}
 }
 
-func (ft *fileTx) t4Func(fd *ast.FuncDecl, fname string) bool { return false }
-
 // insertYield puts a pre-emption point at the entry of every function.
 func (ft *fileTx) insertYield(fd *ast.FuncDecl, fname string) {
 	ft.needSim = true
